@@ -124,11 +124,24 @@ func (e *Exec) decide(asserts []*Term, timeoutS int, pref string, scriptPath str
 	case "cvc5int":
 		try = []string{"cvc5int", "z3new", "cvc5"}
 	default:
-		r, m := e.solver.Check(asserts, timeoutS*1000, wantModel)
+		// quick attempt on the live incremental solver (cheap queries), then one-shot z3 (full tactics)
+		r, m := e.solver.Check(asserts, 1500, wantModel)
 		if r != "unknown" {
 			return qres{r, m, "z3", time.Since(t0).Seconds()}
 		}
-		try = []string{"z3new", "cvc5"}
+		vars0 := varsOf(Collect(asserts))
+		if !wantModel {
+			vars0 = nil
+		}
+		p0 := ""
+		if scriptPath != "" {
+			p0 = scriptPath + ".z3.smt2"
+		}
+		fr := RunScript("z3", Script(asserts, wantModel, ""), vars0, time.Duration(timeoutS)*time.Second, p0)
+		if fr.Res != "unknown" {
+			return qres{fr.Res, fr.Model, "z3", time.Since(t0).Seconds()}
+		}
+		try = []string{"z3new", "cvc5", "cvc5int"}
 	}
 	script := Script(asserts, wantModel, "")
 	vars := varsOf(Collect(asserts))
@@ -212,7 +225,43 @@ func solveAll(e *Exec, res *HarnessResult, prop string, timeoutS int, meta *Harn
 			res.Obligations = append(res.Obligations, or)
 			continue
 		}
-		r := e.decide(asserts, timeoutS, meta.Solver, "", true)
+		first := timeoutS
+		if len(g.qs) > 1 && first > 15 {
+			first = 15
+		}
+		dump := ""
+		if d := os.Getenv("VERIF_DUMP"); d != "" {
+			dump = filepath.Join(d, res.Harness+"_"+sanitize(g.id))
+		}
+		r := e.decide(asserts, first, meta.Solver, dump, true)
+		if r.res == "unknown" && len(g.qs) > 1 {
+			// the disjunction over all paths is too heavy: decide path by path
+			tot := r.dur
+			allUnsat := true
+			for _, qi := range g.qs {
+				if qi.IsFalse() {
+					continue
+				}
+				ri := e.decide(append([]*Term{qi}, axioms...), timeoutS, meta.Solver, "", true)
+				tot += ri.dur
+				if ri.res == "sat" {
+					r = ri
+					q = qi
+					allUnsat = false
+					break
+				}
+				if ri.res != "unsat" {
+					allUnsat = false
+					r = ri
+				}
+			}
+			if allUnsat {
+				r = qres{"unsat", nil, r.solver + " (per path)", tot}
+			}
+			r.dur = tot
+		} else if r.res == "unknown" && first < timeoutS {
+			r = e.decide(asserts, timeoutS, meta.Solver, "", true)
+		}
 		or.Res, or.Solver, or.SolverS = r.res, r.solver, r.dur
 		if e.cfg["tier"] == "thorough" && r.res != "unknown" && e.cfg["crosscheck"] != "off" {
 			// second opinion from a different solver
@@ -286,6 +335,9 @@ func solveAll(e *Exec, res *HarnessResult, prop string, timeoutS int, meta *Harn
 			}
 		}
 		res.Obligations = append(res.Obligations, or)
+		if os.Getenv("VERIF_PROGRESS") != "" {
+			fmt.Fprintf(os.Stderr, "  [%s] %s %s %s %.1fs (%d paths)\n", res.Harness, g.kind, g.id, or.Res, or.SolverS, g.n)
+		}
 	}
 }
 
